@@ -36,3 +36,7 @@ def register(M):
       "    e = max(xe, ye)\n",
       "    e = max(xe, ye) + 1.0\n",
       "harmless: common exponent one decade larger than necessary - a different but equally valid (mantissa, exponent) pair", TESTS, harmless=True)
+    M("M_C19_i", ["C19"], "cotengra/core.py",
+      "            strip_exponent,\n            check_zero,\n            implementation,\n            progbar,\n        )\n",
+      "            strip_exponent,\n            implementation,\n            progbar,\n        )\n",
+      "get_contractor: check_zero dropped from the key of tree.contraction_cores - the check_zero of the FIRST call on a tree object sticks (only the same-tree histories see it)", TESTS)
